@@ -3,7 +3,7 @@
    every timed byte stream (however segmented), every placement of ticks and adapter
    completions, including those that make the handler drop a partly read frame. *)
 From Passage Require Import Lib.Bytes Codec.VarInt Codec.Desc Codec.NoPanic Gen.PacketsGen Gen.ConstsGen
-  Codec.PacketCheck Conn.Types Conn.Prog Conn.Sem1 Conn.Sem2 Conn.Monitor Conn.MonitorProofs.
+  Codec.PacketCheck Conn.Types Conn.Prog Conn.Sem1 Conn.Reader Conn.Sem2 Conn.Monitor Conn.MonitorProofs.
 
 Section Sound2.
   Variable S : Type.
@@ -14,32 +14,8 @@ Section Sound2.
   Local Notation run := (run step).
   Local Notation ok := (ok step).
 
-  (* a closing event list: empty (already emitted) or one unsuccessful, non-panic end *)
-  Definition fin_ok (fin : trace) : Prop :=
-    fin = [] \/ exists t o, fin = [(t, TEnd o)] /\ o <> OOk /\ o <> OErr KPanic.
-
   Definition rres_fin (r : rres) : Prop :=
     match r with REnd fin => exists t o, fin = [(t, TEnd o)] /\ o <> OOk /\ o <> OErr KPanic | _ => True end.
-
-  Lemma deliver_fin got s : rres_fin (deliver got s).
-  Proof.
-    unfold deliver. destruct (rd_var 5 0 0 got); cbn; [exact I|].
-    eexists _, _. split; [reflexivity|]. split; discriminate.
-  Qed.
-
-  Lemma phase_b_fin fuel hz s need got : rres_fin (phase_b fuel hz s need got).
-  Proof.
-    revert s need got. induction fuel as [|f IH]; intros s need got; cbn [phase_b].
-    - cbn. eexists _, _. split; [reflexivity|]. split; discriminate.
-    - destruct (need <=? 0); [apply deliver_fin|].
-      destruct (b_in s) as [|[t b] rest].
-      + destruct (b_eof s) as [te|], hz as [h|]; unfold cut.
-        * destruct (h <=? Z.max te (b_now s)); [exact I | apply deliver_fin].
-        * apply deliver_fin.
-        * exact I.
-        * cbn. eexists _, _. split; [reflexivity|]. split; discriminate.
-      + destruct hz as [h|]; [destruct (h <=? Z.max t (b_now s)); [exact I|]|]; apply IH.
-  Qed.
 
   Lemma errs_end st t o : errs_ok step st -> o <> OOk -> o <> OErr KPanic -> ok st (untime [(t, TEnd o)]).
   Proof.
@@ -47,28 +23,28 @@ Section Sound2.
     destruct (step st (TEnd o)); [discriminate | exact He].
   Qed.
 
-  (* phase A: what it adds to the trace.  With the keep-alive mode on, the monitor state is a
-     resting state of the loop; with it off, nothing is emitted at all. *)
-  Lemma phase_a_ok info st fuel m hz :
+  (* one frame read: what it adds to the trace.  With the keep-alive mode on, the monitor state
+     is a resting state of the loop; with it off, nothing is emitted at all. *)
+  Lemma read_frame_f_ok info st fuel m hz :
     errs_ok step st ->
     (forall loc, m = Some loc -> ka_inv step info loc st) ->
-    forall s k acc,
-    match phase_a cfg e fuel m hz s k acc with
+    forall s,
+    match read_frame_f cfg e fuel m hz s with
     | (tr, REnd fin) => ok st (untime (tr ++ fin))
     | (tr, _) => run st (untime tr) = Some st
     end.
   Proof.
-    intros He Hm. induction fuel as [|f IH]; intros s k acc; cbn [phase_a].
+    intros He Hm. induction fuel as [|f IH]; intros s; cbn [read_frame_f].
     - cbn [app]. apply errs_end; [exact He | discriminate | discriminate].
     - cbv zeta.
       match goal with |- context [if ?c then _ else _] => destruct c end.
-      { destruct hz as [h|]; unfold cut; reflexivity. }
+      { destruct hz as [h|]; reflexivity. }
       match goal with |- context [if ?c then _ else _] => destruct c end.
       + destruct m as [loc|].
         * pose proof (tick_at_ok S step e info st loc (Z.max (b_dl s) (b_now s)) (b_dl s) (b_ka s) (b_nka s) (Hm loc eq_refl)) as Ht.
           destruct (tick_at e loc (Z.max (b_dl s) (b_now s)) (b_dl s) (b_ka s) (b_nka s)) as [tr [[[dl' ka'] nka']|]].
-          -- specialize (IH (upd s (Z.max (b_dl s) (b_now s)) dl' ka' (b_in s) nka') 0%nat 0).
-             destruct (phase_a cfg e f (Some loc) hz (upd s (Z.max (b_dl s) (b_now s)) dl' ka' (b_in s) nka') 0 0) as [tr2 r].
+          -- specialize (IH (upd s (Z.max (b_dl s) (b_now s)) dl' ka' (b_in s) nka' (b_rd s))).
+             destruct (read_frame_f cfg e f (Some loc) hz (upd s (Z.max (b_dl s) (b_now s)) dl' ka' (b_in s) nka' (b_rd s))) as [tr2 r].
              destruct r as [id body s'|s'|fin].
              ++ rewrite untime_app, run_app, Ht. exact IH.
              ++ rewrite untime_app, run_app, Ht. exact IH.
@@ -81,19 +57,14 @@ Section Sound2.
           -- apply IH.
           -- cbn [app]. apply errs_end; [exact He | discriminate | discriminate].
       + destruct (b_in s) as [|[t b] rest].
-        * cbn [app]. apply errs_end; [exact He | discriminate | discriminate].
+        * destruct (eof_events (b_rd s)) as [|[id body| |] evs]; try reflexivity;
+            cbn [app]; (apply errs_end; [exact He | discriminate | discriminate]).
         * cbv zeta.
-          destruct ((b <? 128) || (4 <=? k)%nat).
-          -- destruct ((wrap32 (acc + b mod 128 * 2 ^ (7 * Z.of_nat k)) <=? 0)
-                       || (cf_max_len cfg <? wrap32 (acc + b mod 128 * 2 ^ (7 * Z.of_nat k)))).
-             ++ cbn [app]. apply errs_end; [exact He | discriminate | discriminate].
-             ++ pose proof (phase_b_fin (Datatypes.S (length rest)) hz
-                              (upd s (Z.max t (b_now s)) (b_dl s) (b_ka s) rest (b_nka s))
-                              (wrap32 (acc + b mod 128 * 2 ^ (7 * Z.of_nat k))) []) as Hb.
-                destruct (phase_b (Datatypes.S (length rest)) hz (upd s (Z.max t (b_now s)) (b_dl s) (b_ka s) rest (b_nka s))
-                            (wrap32 (acc + b mod 128 * 2 ^ (7 * Z.of_nat k))) []) as [id body s'|s'|fin]; try reflexivity.
-                destruct Hb as (t0 & o & -> & H1 & H2). cbn [app]. apply errs_end; assumption.
+          destruct (feed_byte (cf_max_len cfg) (b_rd s) b) as [rd' [|[id body| |] evs]].
           -- apply IH.
+          -- reflexivity.
+          -- cbn [app]. apply errs_end; [exact He | discriminate | discriminate].
+          -- cbn [app]. apply errs_end; [exact He | discriminate | discriminate].
   Qed.
 
   Lemma read_frame_ok info st m hz s :
@@ -103,17 +74,17 @@ Section Sound2.
     | (tr, REnd fin) => ok st (untime (tr ++ fin))
     | (tr, _) => run st (untime tr) = Some st
     end.
-  Proof. intros He Hm. unfold read_frame. apply (phase_a_ok info); assumption. Qed.
+  Proof. intros He Hm. unfold read_frame. apply (read_frame_f_ok info); assumption. Qed.
 
   Lemma read_frame_none_nil hz s :
     forall tr r, read_frame cfg e None hz s = (tr, r) -> match r with REnd _ => True | _ => tr = [] end.
   Proof.
-    unfold read_frame. generalize (fuel_of s) as fuel. intros fuel. generalize 0%nat as k, 0 as acc. revert s.
-    induction fuel as [|f IH]; intros s k acc tr r; cbn [phase_a].
+    unfold read_frame. generalize (fuel_of s) as fuel. intros fuel. revert s.
+    induction fuel as [|f IH]; intros s tr r; cbn [read_frame_f].
     - intros H; inversion H; exact I.
     - cbv zeta.
       match goal with |- context [if ?c then _ else _] => destruct c end.
-      { intros [= <- <-]. destruct hz; unfold cut; reflexivity. }
+      { intros [= <- <-]. destruct hz; reflexivity. }
       match goal with |- context [if ?c then _ else _] => destruct c end.
       + destruct (match b_in s, b_eof s with
                   | (t, _) :: _, _ => Some (Z.max t (b_now s))
@@ -122,12 +93,13 @@ Section Sound2.
         * apply IH.
         * intros H; inversion H; exact I.
       + destruct (b_in s) as [|[t b] rest].
-        * intros H; inversion H; exact I.
-        * cbv zeta. destruct ((b <? 128) || (4 <=? k)%nat).
-          -- match goal with |- context [if ?c then _ else _] => destruct c end.
-             ++ intros H; inversion H; exact I.
-             ++ intros [= <- <-]. match goal with |- match ?x with _ => _ end => destruct x end; [reflexivity | reflexivity | exact I].
+        * destruct (eof_events (b_rd s)) as [|[id body| |] evs]; intros H; inversion H; try exact I; reflexivity.
+        * cbv zeta.
+          destruct (feed_byte (cf_max_len cfg) (b_rd s) b) as [rd' [|[id body| |] evs]].
           -- apply IH.
+          -- intros [= <- <-]. reflexivity.
+          -- intros H; inversion H; exact I.
+          -- intros H; inversion H; exact I.
   Qed.
 
   (* what the keep-alive loop contributes to the trace *)
@@ -150,8 +122,8 @@ Section Sound2.
       specialize (Hr Hm).
       destruct (read_frame cfg e (Some loc) hz s) as [tr [id body s'|s'|fin]].
       + destruct (conf_frame cfg info (b_ka s') id body) as [ka''|vs|o] eqn:Hcf.
-        * specialize (IH (upd s' (b_now s') (b_dl s') ka'' (b_in s') (b_nka s'))).
-          destruct (ka_loop2 cfg e f info loc hz (upd s' (b_now s') (b_dl s') ka'' (b_in s') (b_nka s'))) as [tr2 r].
+        * specialize (IH (upd s' (b_now s') (b_dl s') ka'' (b_in s') (b_nka s') (b_rd s'))).
+          destruct (ka_loop2 cfg e f info loc hz (upd s' (b_now s') (b_dl s') ka'' (b_in s') (b_nka s') (b_rd s'))) as [tr2 r].
           assert (Hint : internal info (TRecv id body) = true).
           { unfold internal. destruct info; [|reflexivity].
             destruct (Z.eqb_spec id ci_id) as [->|]; [|reflexivity]. exfalso.
@@ -218,8 +190,8 @@ Section Sound2.
       assert (Hci : true = true -> forall body, exists st', step st (TRecv ci_id body) = Some st' /\ errs_ok step st').
       { intros _ body. specialize (Hk body). destruct (step st (TRecv ci_id body)) as [st'|]; [|contradiction].
         exists st'. split; [reflexivity|]. destruct Hk as [He _]. exact He. }
-      pose proof (ka_loop2_ok true loc st Hinv Hci None (Datatypes.S (length (b_in s))) s) as Hl.
-      destruct (ka_loop2 cfg e (Datatypes.S (length (b_in s))) true loc None s) as [tr [[[vs s']|s']|u]].
+      pose proof (ka_loop2_ok true loc st Hinv Hci None ((length (b_in s) + 3)%nat) s) as Hl.
+      destruct (ka_loop2 cfg e ((length (b_in s) + 3)%nat) true loc None s) as [tr [[[vs s']|s']|u]].
       + destruct Hl as (_ & pre & body & rst & Hu & Hp & Hd). rewrite untime_app, Hu.
         unfold Monitor.ok. rewrite !run_app, Hp. cbn [Monitor.run].
         specialize (Hk body). destruct (step st (TRecv ci_id body)) as [st'|]; [|contradiction].
@@ -233,8 +205,8 @@ Section Sound2.
       destruct Hs as [Hinv Hk].
       assert (Hci : false = true -> forall body, exists st', step st1 (TRecv ci_id body) = Some st' /\ errs_ok step st')
         by discriminate.
-      pose proof (ka_loop2_ok false loc st1 Hinv Hci (Some (b_now s + Z.max lat 1)) (Datatypes.S (length (b_in s))) s) as Hl.
-      destruct (ka_loop2 cfg e (Datatypes.S (length (b_in s))) false loc (Some (b_now s + Z.max lat 1)) s) as [tr [[[vs s']|s']|u]].
+      pose proof (ka_loop2_ok false loc st1 Hinv Hci (Some (b_now s + Z.max lat 1)) ((length (b_in s) + 3)%nat) s) as Hl.
+      destruct (ka_loop2 cfg e ((length (b_in s) + 3)%nat) false loc (Some (b_now s + Z.max lat 1)) s) as [tr [[[vs s']|s']|u]].
       + destruct Hl as (Hf & _). discriminate.
       + unfold Monitor.ok. cbn [untime map snd app Monitor.run]. rewrite Hc.
         rewrite map_app. change (map snd tr) with (untime tr). rewrite run_app, Hl.
